@@ -148,6 +148,10 @@ func oracleTwins(c TwinsCase, o *h.Obs) *h.Fail {
 	}
 	src := twinsSource(c)
 	o.Key = fmt.Sprintf("%s|%d|%d", src, c.Procs, c.Reps)
+	if hangSeen["twins"] && !ctxRef.InReplay() {
+		o.Excluded = "a run that does not finish was already reported by this process"
+		return nil
+	}
 	o.NonTrivial = c.N >= 2
 	o.Class("twins_forward_" + c.Fwd)
 	o.Class("twins_elem_" + c.Elem)
@@ -174,7 +178,10 @@ func oracleTwins(c TwinsCase, o *h.Obs) *h.Fail {
 					continue
 				}
 			}
-			return h.Failf("C16|twins|stuck|"+c.Fwd+"|"+c.Elem, "%s\nthe run did not finish (%s): a message was lost or a stage died", head, r.stuck)
+			f := h.Failf("C16|twins|stuck|"+c.Fwd+"|"+c.Elem, "%s\nthe run did not finish (%s): a message was lost or a stage died", head, r.stuck)
+			f.NoShrink = true
+			hangSeen["twins"] = true
+			return f
 		case r.err != "":
 			return h.Failf("C16|twins|error|"+c.Fwd+"|"+c.Elem, "%s\nerror: %s", head, r.err)
 		}
